@@ -5,10 +5,11 @@
 \*   {"e":"race","keys":[k..],"errs":[..],"regs":[k..]}   concurrent registrations, their results and
 \*        GetRegistrationKeys() afterwards
 \*   {"e":"op","op":{...},"res":{"err","v","rk","recs":[{k,v}..],"feeds":[[{k,v}..]..]},
-\*    "calls":[{p,m,k}..],"stores":[{p,k,v}..],"vis":[{k,v}..]}
+\*    "calls":[{p,m,k}..],"stores":[{p,k,v}..],"vis":[{k,v}..],"regkeys":[k..],"dbn":0|1|2}
 \*        one operation with what it returned, what every subscription received during it, the calls
 \*        the providers saw, what the providers hold afterwards and what Get shows afterwards for every
-\*        key of the history (read through the database while the call log is switched off)
+\*        key of the history (read through the database while the call log is switched off),
+\*        GetRegistrationKeys() and DatabaseName() (0 = "", 1 = the database of the history)
 EXTENDS RuntimeReg, Json
 
 Trace == ndJsonDeserialize("trace.ndjson")
@@ -30,6 +31,8 @@ Match(x, ev) ==
     /\ ev.res.feeds = x.res.feeds
     /\ SeqIsPermOfSet(ev.stores, x.st.store)
     /\ IF x.st.inj THEN SeqIsPermOfSet(ev.vis, Visible(x.st)) ELSE ev.vis = <<>>
+    /\ SeqIsPermOfSet(ev.regkeys, {KeyOf(x.st, p) : p \in Pids(x.st)})
+    /\ ev.dbn = (IF x.st.inj THEN 1 ELSE 0)
 
 \* a provider-side step must make sense in the state the model is in: a provider that exists and keys it
 \* is responsible for (the driver leaves out generated steps that do not apply to what it observed)
